@@ -142,8 +142,13 @@ def _r1_body(ctx, F, b):
               'copy_atomic can write content and return a non-error result without having renamed the staged file onto dst', term_loc(b, exits_ok[0]) if exits_ok else None)
 
 
+LINKERS = ('std::fs::hard_link', 'std::os::unix::fs::symlink', 'tokio::fs::hard_link', 'tokio::fs::symlink')
+
+
 def r2(ctx, F, bs):
     cg, graph = bs.bisync_graph()
+    import semantic_anchors
+    pubs = semantic_anchors.atomic_publishers(F) | {COPY, 'archive::Archive::save'}
     want = set(tables.CONTENT_CREATORS) | set(RENAMES)
     sites = cg.call_sites(lambda c: c in want, within=graph)
     for b, bb, c in sites:
@@ -151,14 +156,54 @@ def r2(ctx, F, bs):
         t = b.blocks[bb]['term']
         if c.endswith('OpenOptions::open'):
             continue   # classified by the write flag below
-        import semantic_anchors
-        ok = top in (COPY, 'archive::Archive::save') or top in semantic_anchors.atomic_publishers(F)
+        ok = top in pubs
+        if not ok and c in RENAMES and top.startswith('archive::'):
+            # moving a complete archive file between its sibling names is atomic by itself (what may be TRUSTED is C07's matter)
+            ok = True
         ctx.check(ok, 'C08.R2', '%s:%s' % (top, c), 'content creator / rename inside the atomic-delivery helper',
                   '%s creates file content or renames directly (bypassing copy_atomic / Archive::save): a kill can leave a partial live file' % top,
                   term_loc(b, bb))
     # OpenOptions opened for write inside the graph
     for b, bb, c in cg.call_sites(lambda c: c == 'std::fs::OpenOptions::write' or c == 'std::fs::OpenOptions::append' or c == 'std::fs::OpenOptions::create', within=graph):
         ctx.bad('C08.R2', '%s:OpenOptions-write' % b.path.split('::{')[0], 'file opened for writing in the bisync call graph outside copy_atomic / Archive::save', term_loc(b, bb))
+    # a link places complete content atomically, but unlike a rename it does not REPLACE: onto a name a killed run left behind
+    # it fails with AlreadyExists - forever, unless that very error falls back to a publisher that replaces
+    ek = F.adts.get('std::io::ErrorKind')
+    exists_discr = next((v['discr'] for v in (ek or {}).get('variants', []) if v['name'] == 'AlreadyExists'), None)
+    for b, bb, c in cg.call_sites(lambda c: c in LINKERS, within=graph):
+        top = b.path.split('::{')[0]
+        fl = flow_of(b)
+        cfg = fl.cfg
+        err = fl.outcomes(bb).get('Err', set())
+        verdict = None
+        if exists_discr is not None and err:
+            after_err = set()
+            for (s_, t_, lab) in err:
+                after_err |= cfg.reach(t_)
+            for sb in sorted(after_err):
+                st = b.blocks[sb]['term']
+                if st['k'] != 'switch' or st['on']['k'] == 'const':
+                    continue
+                os_ = fl.origins(st['on'])
+                if not any(o.kind == 'call' and str(o.key).endswith('io::Error::kind') for o in os_):
+                    continue
+                tgt = dict((tv, tb) for tv, tb in st['targets']).get(exists_discr, st['otherwise'])
+                r = cfg.reach(tgt)
+                handled = any(b.blocks[x]['term']['k'] == 'call' and (callee(b.blocks[x]['term']) in pubs or callee(b.blocks[x]['term']) in RENAMES) for x in r)
+                verdict = handled
+        if verdict is None and err:
+            # every error falls back?
+            after_err = set()
+            for (s_, t_, lab) in err:
+                after_err |= cfg.reach(t_)
+            if any(b.blocks[x]['term']['k'] == 'call' and callee(b.blocks[x]['term']) in pubs for x in after_err):
+                ctx.undecided('C08.R2', '%s links a file into place and falls back to a publisher on some errors: which ones is not decided' % top)
+                continue
+            verdict = False
+        ctx.check(bool(verdict), 'C08.R2', '%s:%s:replaces-on-rerun' % (top, c.split('::')[-1]), 'AlreadyExists from the link falls back to a publisher that replaces the destination',
+                  '%s places a file with %s, which does not replace an existing destination, and AlreadyExists is not turned into a replacing copy: after a kill '
+                  'between this step and the end of the action, every re-run stops here with "File exists" and the pair never converges' % (top, c.split('::')[-1]),
+                  term_loc(b, bb))
 
 
 def r3(ctx, F, bs):
